@@ -267,8 +267,8 @@ Definition cfg_of_facts (nonevm evm : list string) (x : ext_facts) (gp ga : guar
      other_route := route_of x OtherExt;
      other_decodable := negb (forallb (String.eqb "ExtensionOptionsEthereumTx") registered_ext);
      g_prevent := guard_active nonevm N_PREVENT_ETH gp [T_ETH];
-     g_authz := guard_active nonevm N_AUTHZ_GUARD ga [T_ETH; T_GRANT];
-     g_authz_exec := mem T_EXEC (g_tests ga) && g_into_exec ga;
+     g_authz := guard_active nonevm N_AUTHZ_GUARD ga [T_GRANT; "authz.GenericAuthorization"];
+     g_authz_exec := mem T_EXEC (g_tests ga) && mem T_ETH (g_tests ga) && g_into_exec ga;
      g_authz_rec := g_recursive ga;
      vb_on := mem N_VALIDATE_BASIC nonevm;
      sig_on := mem N_SET_PUBKEY nonevm && mem N_SIG_VERIFY nonevm;
